@@ -4,6 +4,7 @@ package main
 
 import (
 	"fmt"
+	"sort"
 	"go/constant"
 	"go/types"
 	"strings"
@@ -40,7 +41,9 @@ type CEnv struct {
 	facts     []Term
 	inOld     bool
 	closures  map[string]Val
+	shadow    map[string]bool // names bound by macro parameters, quantifiers and let: never resolved to locals
 	inTrigger bool
+	localsAt  map[*ssa.Alloc]Val // atloop(): locals as they were at loop entry
 	qdepth    int // number of enclosing binders (bound variables are named by depth, so
 	// that the same formula evaluated twice in the same state has the same text)
 	fuel      string // bound fuel variable in scope ("" = default fuel constant)
@@ -63,6 +66,10 @@ func (env *CEnv) clone() *CEnv {
 	n.vars = make(map[string]CVal, len(env.vars))
 	for k, v := range env.vars {
 		n.vars[k] = v
+	}
+	n.shadow = make(map[string]bool, len(env.shadow))
+	for k := range env.shadow {
+		n.shadow[k] = true
 	}
 	n.facts = nil
 	return &n
@@ -154,6 +161,7 @@ func (env *CEnv) eval(e Expr) CVal {
 		v := env.eval(x.Val)
 		n := env.clone()
 		n.vars[x.Name] = v
+		n.shadow[x.Name] = true
 		r := n.eval(x.Body)
 		env.facts = append(env.facts, n.facts...)
 		return r
@@ -176,7 +184,7 @@ func (env *CEnv) unifyNil(a, b CVal) (CVal, CVal) {
 
 func (env *CEnv) ident(name string) CVal {
 	if v, ok := env.vars[name]; ok {
-		if env.frame == nil || strings.HasPrefix(name, "$") {
+		if env.frame == nil || strings.HasPrefix(name, "$") || env.shadow[name] {
 			return v
 		}
 		// in loop invariants, a parameter name denotes its current value (below)
@@ -186,6 +194,11 @@ func (env *CEnv) ident(name string) CVal {
 	}
 	if env.frame != nil {
 		if a := env.localAlloc(name); a != nil {
+			if env.localsAt != nil {
+				if t, ok := env.localsAt[a].(Term); ok {
+					return CVal{T: t, Type: a.Type().(*types.Pointer).Elem()}
+				}
+			}
 			fr := env.st.frameOfAlloc(a)
 			if fr != nil {
 				if t, ok := fr.locals[a].(Term); ok {
@@ -523,6 +536,7 @@ func (env *CEnv) quant(q *EQuant) CVal {
 		cv := env.bindVar(b, name)
 		binders = append(binders, fmt.Sprintf("(%s %s)", name, cv.T.Sort))
 		n.vars[b.Name] = cv
+		n.shadow[b.Name] = true
 		_ = guards
 	}
 	fuelVar := fmt.Sprintf("fuel!q%d", env.qdepth)
@@ -726,6 +740,7 @@ func (env *CEnv) call(c *ECall) CVal {
 		n := env.clone()
 		n.cur = snapReader{le, env.run, env.scriptOf()}
 		n.curAlloc = le.alloc
+		n.localsAt = env.frame.loopLocals[env.loopBlock.Index]
 		v := n.eval(c.Args[0])
 		env.facts = append(env.facts, n.facts...)
 		return v
@@ -767,6 +782,22 @@ func (env *CEnv) call(c *ECall) CVal {
 	case "zero":
 		ty := env.run.eng.resolveType(c.TArgs[0], env.pkg, env.tsubst)
 		return CVal{T: reg.Zero(reg.SortOf(ty)), Type: ty}
+	case "stringOf":
+		a := env.eval(c.Args[0])
+		env.run.declare("bytes_of_string", "(declare-fun bytes_of_string (String) Slice)")
+		env.run.declare("string_of_bytes", "(declare-fun string_of_bytes (Slice) String)")
+		env.run.declare("ax:bytes_string", "(assert (forall ((s String)) (! (= (string_of_bytes (bytes_of_string s)) s) :pattern ((bytes_of_string s)))))")
+		return CVal{T: app(SString, "string_of_bytes", a.T), Type: tString}
+	case "bytesOf":
+		a := env.eval(c.Args[0])
+		env.run.declare("bytes_of_string", "(declare-fun bytes_of_string (String) Slice)")
+		env.run.declare("string_of_bytes", "(declare-fun string_of_bytes (Slice) String)")
+		env.run.declare("ax:bytes_string", "(assert (forall ((s String)) (! (= (string_of_bytes (bytes_of_string s)) s) :pattern ((bytes_of_string s)))))")
+		return CVal{T: app(SSlice, "bytes_of_string", a.T), Type: types.NewSlice(types.Typ[types.Byte])}
+	case "implements":
+		v := env.eval(c.Args[0])
+		ty := env.run.eng.resolveType(c.TArgs[0], env.pkg, env.tsubst)
+		return CVal{T: env.run.eng.implementsTerm(env.run, v.T, ty), Type: tBool}
 	case "contains":
 		a := env.eval(c.Args[0])
 		b := env.eval(c.Args[1])
@@ -820,6 +851,7 @@ func (env *CEnv) call(c *ECall) CVal {
 		n.pkg = m.Pkg
 		for i, p := range m.Params {
 			n.vars[p] = env.eval(c.Args[i])
+			n.shadow[p] = true
 			n.tsubst = inferTsubst(n.tsubst, n.vars[p].Type)
 		}
 		// macro bodies see only their parameters and globals
@@ -870,7 +902,7 @@ func (env *CEnv) ghostCall(g *GhostFunc, c *ECall) CVal {
 	tsub := map[string]types.Type{}
 	for i, a := range c.Args {
 		v := env.eval(a)
-		if g.Params[i].Type.Kind == "slice" {
+		if g.Params[i].Type.Kind == "slice" && !g.Heap {
 			v = env.toSeq(v)
 		}
 		unifyTypeExpr(g.Params[i].Type, v.Type, tsub)
@@ -897,12 +929,21 @@ func (env *CEnv) ghostCall(g *GhostFunc, c *ECall) CVal {
 		inst += "<" + strings.Join(parts, ",") + ">"
 	}
 	sym := quote("ghost:" + inst)
+	if g.Heap {
+		// a heap-reading ghost function is a function of the components it reads
+		for _, hc := range env.run.heapGhostComps(g, tsub) {
+			sorts = append(sorts, string(hc.sort))
+			terms = append(terms, env.cur.H(hc.name, hc.sort))
+		}
+	}
 	if g.Body != nil {
 		sorts = append([]string{"Fuel"}, sorts...)
 		terms = append([]Term{{env.outerFuel(), "Fuel"}}, terms...)
 	}
-	env.run.declare(sym, fmt.Sprintf("(declare-fun %s (%s) %s)", sym, strings.Join(sorts, " "), rs))
-	env.run.usedGhost(g, inst, tsub, sorts, rs)
+	if _, dry := env.cur.(*recReader); !dry {
+		env.run.declare(sym, fmt.Sprintf("(declare-fun %s (%s) %s)", sym, strings.Join(sorts, " "), rs))
+		env.run.usedGhost(g, inst, tsub, sorts, rs)
+	}
 	return CVal{T: app(rs, sym, terms...), Type: rt}
 }
 
@@ -1005,6 +1046,7 @@ func (env *CEnv) split(e Expr, decls []string, hyps []Term, out *[]Goal) {
 				cv := env.bindVar(b, name)
 				d2 = append(d2, fmt.Sprintf("(declare-const %s %s)", name, cv.T.Sort))
 				n.vars[b.Name] = cv
+				n.shadow[b.Name] = true
 			}
 			n.split(x.Body, d2, h2, out)
 			return
@@ -1013,6 +1055,7 @@ func (env *CEnv) split(e Expr, decls []string, hyps []Term, out *[]Goal) {
 		v := env.eval(x.Val)
 		n := env.clone()
 		n.vars[x.Name] = v
+		n.shadow[x.Name] = true
 		n.split(x.Body, decls, append(append([]Term(nil), hyps...), env.takeFacts()...), out)
 		return
 	case *ECall:
@@ -1021,6 +1064,7 @@ func (env *CEnv) split(e Expr, decls []string, hyps []Term, out *[]Goal) {
 			n.pkg = m.Pkg
 			for i, p := range m.Params {
 				n.vars[p] = env.eval(x.Args[i])
+				n.shadow[p] = true
 				n.tsubst = inferTsubst(n.tsubst, n.vars[p].Type)
 			}
 			n.split(m.Body, decls, append(append([]Term(nil), hyps...), env.takeFacts()...), out)
@@ -1060,4 +1104,85 @@ func (env *CEnv) split(e Expr, decls []string, hyps []Term, out *[]Goal) {
 	g := env.evalBool(e)
 	h := append(append([]Term(nil), hyps...), env.takeFacts()...)
 	*out = append(*out, Goal{Decls: decls, Hyps: h, Goal: g})
+}
+
+// ---------- heap-reading ghost functions ----------
+
+type heapComp struct {
+	name string
+	sort Sort
+}
+
+// recReader records which heap components an expression reads.
+type recReader struct {
+	seen  map[string]Sort
+	order []string
+}
+
+func (r *recReader) H(name string, so Sort) Term {
+	if _, ok := r.seen[name]; !ok {
+		r.seen[name] = so
+		r.order = append(r.order, name)
+	}
+	return Term{quote("rec:" + name), so}
+}
+
+// mapReader maps components to fixed terms (bound variables of a definition).
+type mapReader struct {
+	m   map[string]Term
+	run *FuncRun
+}
+
+func (r mapReader) H(name string, so Sort) Term {
+	if t, ok := r.m[name]; ok {
+		return t
+	}
+	fail("heap ghost function reads component %s that its dry run did not record", name)
+	return Term{}
+}
+
+var heapGhostCache = map[string][]heapComp{}
+var heapGhostBusy = map[string]bool{}
+
+// heapGhostComps computes (by a dry evaluation of the body) the components a
+// heap ghost function reads, including those of heap ghosts it calls.
+func (run *FuncRun) heapGhostComps(g *GhostFunc, tsub map[string]types.Type) []heapComp {
+	key := g.Pkg + "." + g.Name + "|" + tsubKey(run.eng.reg, tsub)
+	if c, ok := heapGhostCache[key]; ok {
+		return c
+	}
+	if heapGhostBusy[key] {
+		return nil // recursive occurrence during the dry run
+	}
+	heapGhostBusy[key] = true
+	defer delete(heapGhostBusy, key)
+	if g.Body == nil {
+		fail("heap ghost function %s needs a body", g.Name)
+	}
+	rec := &recReader{seen: map[string]Sort{}}
+	env := &CEnv{run: run, cur: rec, curAlloc: Term{"alloc@0", SInt}, old: &Snapshot{heap: map[string]Term{}, alloc: Term{"alloc@0", SInt}},
+		vars: map[string]CVal{}, pkg: g.Pkg, tsubst: tsub, seqBinders: false}
+	for _, p := range g.Params {
+		ty := run.eng.resolveType(p.Type, g.Pkg, tsub)
+		env.vars[p.Name] = CVal{T: Term{quote("dry:" + p.Name), run.eng.reg.SortOf(ty)}, Type: ty}
+		env.shadow = map[string]bool{}
+	}
+	env.eval(g.Body)
+	var out []heapComp
+	for _, n := range rec.order {
+		out = append(out, heapComp{n, rec.seen[n]})
+	}
+	// a second pass picks up components read only through (now known) callees
+	heapGhostCache[key] = out
+	rec2 := &recReader{seen: map[string]Sort{}}
+	env.cur = rec2
+	env.facts = nil
+	env.eval(g.Body)
+	out = nil
+	for _, n := range rec2.order {
+		out = append(out, heapComp{n, rec2.seen[n]})
+	}
+	sort.Slice(out, func(i, j int) bool { return out[i].name < out[j].name })
+	heapGhostCache[key] = out
+	return out
 }
